@@ -14,7 +14,7 @@ quantified INPUT of every theorem below: `arrivals : List (parent × message)`.
 -/
 import Kap.Proofs.C12Union
 import Kap.Proofs.C12Join
-import Kap.Proofs.C12PairJ
+import Kap.Proofs.C12PairK
 namespace Kap.Props.C12
 open Kap.C12 Kap.C12.Spec
 
@@ -185,14 +185,28 @@ example : let cfg : JCfg := { parents := 2, tol := 0, fill := .num "i:0", names 
       [[("a.v", "i:1"), ("b.v", "i:3")], [("a.v", "i:2"), ("b.v", "i:0")], [("a.v", "i:4"), ("b.v", "i:0")], [("a.v", "i:0"), ("b.v", "i:5")]] := by
   decide
 
-/-- Consequence of the statement above (stated, not proved): the multiset of join outputs is the same for any
-two arrival orders that are interleavings of the same per-parent sequences. -/
-def join_multiset_interleaving_independent_stmt : Prop :=
-  ∀ (cfg : JCfg) (a₁ a₂ : List (Nat × JMsg)), cfg.names.length = cfg.parents →
-    (∀ a ∈ a₁, a.1 < cfg.parents) → (∀ a ∈ a₂, a.1 < cfg.parents) →
-    (∀ i, i < cfg.parents → parentSeq i a₁ = parentSeq i a₂) →
-    joinOrdered cfg (a₁.map (fun a => (a.1, a.2.grp, a.2.time))) →
+/-- **join_multiset_interleaving_independent** — for any two arrival orders that are interleavings of the same
+per-parent sequences (parents time-ordered within every group), the multisets of joined points emitted
+over the whole run are equal. -/
+theorem join_multiset_interleaving_independent (cfg : JCfg) (a₁ a₂ : List (Nat × JMsg)) (hn : cfg.names.length = cfg.parents)
+    (h₁ : ∀ a ∈ a₁, a.1 < cfg.parents) (h₂ : ∀ a ∈ a₂, a.1 < cfg.parents)
+    (hsame : ∀ i, i < cfg.parents → parentSeq i a₁ = parentSeq i a₂)
+    (ho : joinOrdered cfg (a₁.map (fun a => (a.1, a.2.grp, a.2.time)))) :
     (((JNode.run cfg (a₁.map (fun a => JOp.point a.1 a.2))).2.1).filterMap (joinIntoPoint cfg)).Perm
-      (((JNode.run cfg (a₂.map (fun a => JOp.point a.1 a.2))).2.1).filterMap (joinIntoPoint cfg))
+      (((JNode.run cfg (a₂.map (fun a => JOp.point a.1 a.2))).2.1).filterMap (joinIntoPoint cfg)) :=
+  join_independent cfg a₁ a₂ hn h₁ h₂ hsame ho
+
+/-- The hypothesis `joinOrdered` is needed: with a parent that goes back in time the pairing depends on the
+interleaving (the sets at the old time may already have been emitted). Two interleavings of the same
+per-parent sequences, parent 0 unordered, different multisets. -/
+theorem join_unordered_parent_depends_on_interleaving :
+    let cfg : JCfg := { parents := 2, tol := 0, fill := .null, names := ["a", "b"], delim := ".", sname := "" }
+    let m (t : Int) (v : String) : JMsg := { time := t, name := "m", grp := "", byName := false, dims := [], tags := [], fields := [("v", v)] }
+    let a₁ : List (Nat × JMsg) := [(0, m 2 "i:1"), (0, m 1 "i:2"), (1, m 1 "i:3"), (1, m 2 "i:4")]
+    let a₂ : List (Nat × JMsg) := [(0, m 2 "i:1"), (1, m 1 "i:3"), (1, m 2 "i:4"), (0, m 1 "i:2")]
+    (∀ i, i < 2 → parentSeq i a₁ = parentSeq i a₂) ∧
+    ((((JNode.run cfg (a₁.map (fun a => JOp.point a.1 a.2))).2.1).filterMap (joinIntoPoint cfg)).length ≠
+     (((JNode.run cfg (a₂.map (fun a => JOp.point a.1 a.2))).2.1).filterMap (joinIntoPoint cfg)).length) := by
+  decide
 
 end Kap.Props.C12
